@@ -3,7 +3,7 @@ as the oracle for pymbolic.algorithm.fft / ifft / sym_fft (C19).
 
     F[x]_k = sum_j z^(k*j) x_j,   z = exp(-2 i pi sign / n)
 
-Pure Python: the twiddle factor is taken at the exponent k*j reduced mod n in
+The twiddle factor is taken at the exponent k*j reduced mod n in
 integer arithmetic (so the argument of exp never grows), and real and
 imaginary parts are summed with math.fsum (correctly rounded sums), so the
 reference is accurate to a few ulp of the largest term for every n used here.
@@ -27,12 +27,27 @@ def twiddles(n, sign=1):
     return out
 
 
+FSUM_MAX_N = 64
+
+
 def dft(x, sign=1):
-    """x: sequence of complex; returns list of complex."""
+    """x: sequence of complex; returns list of complex.
+
+    Up to FSUM_MAX_N points: pure Python with correctly rounded sums.  Longer
+    inputs: the same twiddle table (one cmath.exp per residue), gathered into
+    the n x n matrix and multiplied with numpy (plain float accumulation: error
+    about n * 1e-16 relative, far inside the tolerance of the check) - the pure
+    Python loop costs 0.1-0.5 s per case there, too close to the case timeout
+    on a busy machine."""
     n = len(x)
     if n == 0:
         raise ValueError("empty input")
     w = twiddles(n, sign)
+    if n > FSUM_MAX_N:
+        import numpy as np
+        idx = np.outer(np.arange(n), np.arange(n)) % n
+        mat = np.array(w, dtype=np.complex128)[idx]
+        return [complex(v) for v in mat @ np.array(x, dtype=np.complex128)]
     out = []
     for k in range(n):
         terms = [w[(k * j) % n] * x[j] for j in range(n)]
